@@ -529,7 +529,16 @@ func (server *SugarDB) handleConnection(conn net.Conn) {
 			break
 		}
 
-		res, err := server.handleCommand(ctx, message, &conn, false, false)
+		res, err := func() (res []byte, err error) {
+			// A panic while handling one command must not take the whole process (and every
+			// other connection) down: report it to this client as an error reply.
+			defer func() {
+				if r := recover(); r != nil {
+					res, err = nil, fmt.Errorf("internal error: %v", r)
+				}
+			}()
+			return server.handleCommand(ctx, message, &conn, false, false)
+		}()
 		if err != nil && errors.Is(err, io.EOF) {
 			break
 		}
